@@ -184,6 +184,16 @@ func TestVerifStubFree(t *testing.T) {
 	}
 	rng := rand.New(rand.NewSource(int64(vEnvInt("VERIF_SEED", 1))))
 	G, K := vEnvInt("VERIF_G", 4), vEnvInt("VERIF_K", 8)
+	// VERIF_NOMMAP=1: executable mappings are refused for this whole process: the public Acquire must take the fallback path
+	nommap := os.Getenv("VERIF_NOMMAP") == "1"
+	if nommap {
+		if err := denyExecMmap(); err != nil {
+			t.Skip("cannot refuse executable mappings here: " + err.Error())
+		}
+		if _, _, err := acquireFromMMap(48); err == nil {
+			t.Skip("the filter did not take effect")
+		}
+	}
 	of, _ := os.Create(out)
 	defer of.Close()
 	bw := bufio.NewWriter(of)
@@ -209,7 +219,11 @@ func TestVerifStubFree(t *testing.T) {
 	sizes := make([][]int, G)
 	for i := range sizes {
 		for j := 0; j < K; j++ {
-			sizes[i] = append(sizes[i], []int{6, 12, 48, 100, 4096, 5000}[rng.Intn(6)])
+			if nommap {
+				sizes[i] = append(sizes[i], []int{6, 12, 48, 100, 48, 300}[rng.Intn(6)]) // (stay below the reserve for a while)
+			} else {
+				sizes[i] = append(sizes[i], []int{6, 12, 48, 100, 4096, 5000}[rng.Intn(6)])
+			}
 		}
 	}
 	for i := 0; i < G; i++ {
@@ -242,6 +256,9 @@ func TestVerifStubFree(t *testing.T) {
 	R := vEnvInt("VERIF_RBYTES", 48*40)
 	placeHolderIns.max = placeHolderIns.off + uintptr(R)
 	resLo, resHi := uint64(placeHolderIns.off), uint64(placeHolderIns.max)
+	if nommap {
+		resLo = uint64(placeHolderIns.min) // phase 1 was served from the reserve too
+	}
 	for i := 0; i < G; i++ {
 		wg.Add(1)
 		go func(i int) {
